@@ -433,7 +433,7 @@ static int link_into(vh_rng* r, int h, int target) {
     if (mode == 0 && s->n > 0) {
       at = (int)vh_below(r, (uint64_t)s->n);
       if (s->kind == NK_TUPLE) { push_at(s->ptr, p, $I(at)); }
-      else if (s->kind == NK_ARR_EMB) { push_at(s->ptr, $(PEmb, p, 7), $I(at)); }
+      else if (s->kind == NK_ARR_EMB) { push_at(s->ptr, $(PEmb, (at & 1) ? 7 : 0, p, 0), $I(at)); }
       else { push_at(s->ptr, $R(p), $I(at)); }
       memmove(&s->items[at + 1], &s->items[at], sizeof(int) * (size_t)(s->n - at));
       s->items[at] = target; s->n++; N[target].nin++;
@@ -441,14 +441,14 @@ static int link_into(vh_rng* r, int h, int target) {
     } else if (mode == 1 && s->n > 0) {
       at = (int)vh_below(r, (uint64_t)s->n);
       if (s->kind == NK_TUPLE) { set(s->ptr, $I(at), p); }
-      else if (s->kind == NK_ARR_EMB) { set(s->ptr, $I(at), $(PEmb, p, 7)); }
+      else if (s->kind == NK_ARR_EMB) { set(s->ptr, $I(at), $(PEmb, (at & 1) ? 7 : 0, p, 0)); }
       else { set(s->ptr, $I(at), $R(p)); }
       N[s->items[at]].nin--; N[target].nin++;
       s->items[at] = target; removed = 1;
       vh_op("n%d.set(%d,n%d)", h, at, target);
     } else {
       if (s->kind == NK_TUPLE) { push(s->ptr, p); }
-      else if (s->kind == NK_ARR_EMB) { push(s->ptr, $(PEmb, p, 7)); }
+      else if (s->kind == NK_ARR_EMB) { push(s->ptr, $(PEmb, (at & 1) ? 7 : 0, p, 0)); }
       else { push(s->ptr, $R(p)); }
       s->items[s->n++] = target; N[target].nin++;
       vh_op("n%d.push(n%d)", h, target);
